@@ -638,6 +638,15 @@ def r_type1(ctx, g):
              "range ..": ([P("type2", "A"), P("range_op", "..", P("range_op_inclusive", "..")), P("type2", "B")], ("RangeOp", True)),
              "range ...": ([P("type2", "A"), P("range_op", "...", P("range_op_exclusive", "...")), P("type2", "B")], ("RangeOp", False)),
              "control": ([P("type2", "A"), P("control_op", ".size", P("control_name", "size")), P("controller", "B", P("type2", "B"))], ("CtlOp", "CTRL(.size)"))}
+    if "COMMENT" in ch:
+        # comments between the operands and the operator (RFC 8610: type1 = type2 [S (rangeop / ctlop) S type2]) appear as sibling pairs
+        C = lambda: P("COMMENT", "; c\n")
+        for base in ("range ..", "range ...", "control"):
+            kids, want = cases[base]
+            cases[base + " ;before-op"] = ([kids[0], C(), kids[1], kids[2]], want)
+            cases[base + " ;after-op"] = ([kids[0], kids[1], C(), kids[2]], want)
+            cases[base + " ;both"] = ([kids[0], C(), C(), kids[1], C(), kids[2]], want)
+        cases["plain ;after"] = ([cases["plain"][0][0], C()], None)
     for cname, (kids, want) in cases.items():
         for k in kids:
             if k[2]["rule"] not in ch:
